@@ -125,7 +125,7 @@ def run(ctx):
     # arguments of the enclosing syscall.  The event LIST of a trace and the trace count of other records are C04's, the
     # name tables are by-products
     FRAG = ('LKP', 'GSTR', 'TNAME', 'TNAMEP')
-    own = lambda cl, cls: cl in ('raised', 'fields', 'shape') or (cl in ('missing-trace', 'spurious-trace') and cls in FRAG)
+    own = lambda cl, cls: cl in ('raised', 'fields', 'shape', 'fragment-trace') or (cl in ('missing-trace', 'spurious-trace') and cls in FRAG)
     execs = validate_streams(ctx, cases, 'full', 'c08val', own=own)
     ctx.sample({'case': cases[5][0], 'events': [a.abs for a in cases[5][2]][:3]})
     ctx.extra['code_to_spec'] = {'cases': len(cases), 'path_taking_decoders': len(names), 'text_lengths': len(lens),
